@@ -63,15 +63,8 @@ func targetsOfLength(n int) []string {
 // (length limit, colon, backslash, absolute), built systematically.
 func c16Boundary() []string {
 	var out []string
-	// Length boundary 246/247/248 bytes, as one name, as nested names, and as a
-	// chain that climbs and descends.
-	for _, n := range []int{246, 247, 248, 249, 300} {
-		out = append(out, strings.Repeat("a", n))
-		s := strings.Repeat("a/", n/2+1)
-		out = append(out, s[:n])
-		s = strings.Repeat("a/../", n/5+1)
-		out = append(out, s[:n])
-	}
+	// Length boundary (see c16LongTargets).
+	out = append(out, c16LongTargets()...)
 	// A colon or a backslash at every position of every target of <= 3 tokens.
 	for n := 1; n <= 3; n++ {
 		for _, base := range targetsOfLength(n) {
@@ -84,6 +77,32 @@ func c16Boundary() []string {
 	// Absolute forms (a leading empty token is also produced by the token
 	// enumeration; these add the multi-slash and dotted ones).
 	out = append(out, "/", "//", "/a", "//a", "/..", "/./a", "/a/../..")
+	return out
+}
+
+// c16LongTargets is the length family: targets of exactly 246, 247, 248, 249,
+// 300 and 532 BYTES ("over-long" is a byte length: the limit protects a
+// Windows path-length limit and is what the unchanged code applies to ASCII),
+// built from a 1-, 2-, 3- and 4-byte UTF-8 character, as one name, as nested
+// names of ten characters, and (ASCII) as a chain that climbs and descends.
+func c16LongTargets() []string {
+	var out []string
+	pad := func(s string, n int) string { return s + strings.Repeat("b", n-len(s)) }
+	for _, ch := range []string{"a", "\u00e9", "\u20ac", "\U0001F600"} {
+		for _, n := range []int{246, 247, 248, 249, 300, 532} {
+			out = append(out, pad(strings.Repeat(ch, n/len(ch)), n))
+			comp := strings.Repeat(ch, 10) + "/"
+			nested := ""
+			for len(nested)+len(comp) <= n {
+				nested += comp
+			}
+			out = append(out, pad(nested, n))
+		}
+	}
+	for _, n := range []int{246, 247, 248, 249, 300} {
+		s := strings.Repeat("a/../", n/5+1)
+		out = append(out, s[:n])
+	}
 	return out
 }
 
@@ -323,7 +342,7 @@ func TestC16(t *testing.T) {
 	if vr.Thorough() {
 		maxTok, diskTok = 8, 5
 	}
-	r.Rule(fmt.Sprintf("normalize leg: every target of 1..%d tokens from {a, ., .., empty} joined by '/' x link paths %v, plus %d boundary strings (246..300 bytes, ':' and '\\' at every position of every <=3-token target, absolute forms) x the same paths, through core.VerifNormalizeSymbolicLink; scan leg: every target of 1..%d tokens as a real link at depth 0..2, scanned by core.Scan in portable mode; transition leg: the same targets (plus the empty one) as a planned link creation applied by core.Transition in portable mode; replacement legs: an existing valid link (created by Transition, then scanned) retargeted to each of those targets and to every boundary string, and an existing file / non-empty directory replaced by a link with each of those targets, Old = the scanned entry, applied by core.Transition in portable mode at depth 0..2. Non-trivial = the target is non-empty, relative, <= 247 bytes, colon- and backslash-free, so the depth walk decides; distinct by (leg, path, target).",
+	r.Rule(fmt.Sprintf("normalize leg: every target of 1..%d tokens from {a, ., .., empty} joined by '/' x link paths %v, plus %d boundary strings (the length family: exactly 246/247/248/249/300/532 bytes built from a 1-, 2-, 3- and 4-byte UTF-8 character as one name and as nested names — also run through the scan and transition legs —, ':' and '\\' at every position of every <=3-token target, absolute forms) x the same paths, through core.VerifNormalizeSymbolicLink; scan leg: every target of 1..%d tokens as a real link at depth 0..2, scanned by core.Scan in portable mode; transition leg: the same targets (plus the empty one) as a planned link creation applied by core.Transition in portable mode; replacement legs: an existing valid link (created by Transition, then scanned) retargeted to each of those targets and to every boundary string, and an existing file / non-empty directory replaced by a link with each of those targets, Old = the scanned entry, applied by core.Transition in portable mode at depth 0..2. Non-trivial = the target is non-empty, relative, <= 247 bytes, colon- and backslash-free, so the depth walk decides; distinct by (leg, path, target).",
 		maxTok, c16Paths, len(c16Boundary()), diskTok))
 	r.Assume("resolution is lexical (components that are themselves links are C17's subject)",
 		"stepping above the root at any point of the target counts as outside, whatever follows",
@@ -394,6 +413,14 @@ func TestC16(t *testing.T) {
 			}
 		}
 	}
+	for _, target := range c16LongTargets() {
+		for _, p := range c16Paths[:3] {
+			serial++
+			rel := fmt.Sprintf("%s%d", p, serial)
+			must(t, os.Symlink(target, filepath.Join(root, rel)))
+			links = append(links, placed{c16case{"scan", p, target}, 99, rel})
+		}
+	}
 	snap, _, _, err := doScan(root, nil, nil, nil, newIgnorer(t, nil), nil, portableModes)
 	must(t, err)
 	for _, pl := range links {
@@ -427,6 +454,20 @@ func TestC16(t *testing.T) {
 				}
 				note(c, n, acc, what)
 			}
+		}
+	}
+	for _, target := range c16LongTargets() {
+		for _, p := range c16Paths[:3] {
+			serial++
+			c := c16case{"transition", p, target}
+			at := c
+			at.Path = fmt.Sprintf("%s%d", p, serial)
+			acc, what, err := transitionCreate(troot, at)
+			must(t, err)
+			if what != "" {
+				what = strings.ReplaceAll(what, at.Path, c.Path)
+			}
+			note(c, 99, acc, what)
 		}
 	}
 
